@@ -7,7 +7,7 @@ import k5check
 
 
 def run(tier):
-    return k2check.run("C05", tier, profile="mixed", phases=[k5check.k5_phase_for("C05")])
+    return k2check.run("C05", tier, profile="mixed", extra_props=["C05Conc"], phases=[k5check.k5_phase_for("C05")])
 
 
 def replay(path):
